@@ -306,6 +306,11 @@ impl<'tx> TxInner<'tx> {
                 let alloc_size = ((size_diff / MIN_ALLOC_SIZE) + 1) * MIN_ALLOC_SIZE;
                 let data = self.db.inner.resize(file, current_size + alloc_size)?;
                 self.pages = Pages::new(data, self.db.inner.pagesize);
+            } else if (self.pages.data.len() as u64) < required_size {
+                // The file is big enough but the map is not: an earlier commit grew the file
+                // and then failed to map it again.
+                let data = self.db.inner.resize(file, current_size)?;
+                self.pages = Pages::new(data, self.db.inner.pagesize);
             }
 
             // write the data to the file
